@@ -230,6 +230,19 @@ def doc_cases(ctx, tabs):
                 out.append(("decl-contra/%s-as-%s" % (enc, cn), encode(bad + body), ("fatal",)))
                 if bom:
                     out.append(("bom-decl-contra/%s-as-%s" % (enc, cn), bom + encode(bad + body), ("fatal",)))
+            # (d) size dimension: documents shorter / just longer than the "<?xml " probe (6 characters after the BOM):
+            # the auto-sensing code has separate paths for "too few bytes to hold a declaration"
+            if d == 0 and enc in ("UTF-8", "UTF-16LE", "UTF-16BE"):
+                c1 = chr(chars[0])
+                for L in range(1, 9):
+                    nm = "abcdefgh"[:L]
+                    for bd, wtxt in (("<%s/>" % nm, nm + "|"), ("<%s>%s</%s>" % (nm, c1, nm), nm + "|" + c1)):
+                        wu = []
+                        for ch in wtxt:
+                            wu += utf16_of(ord(ch))
+                        out.append(("short-bom-nodecl/%s/%d" % (enc, len(bd)), bom + encode(bd), ("ok", "ok " + hx(wu, 4))))
+                        if enc == "UTF-8":
+                            out.append(("short-nobom-nodecl/UTF-8/%d" % len(bd), encode(bd), ("ok", "ok " + hx(wu, 4))))
             # non-ASCII bytes under a US-ASCII declaration must be rejected
             if enc == "ISO-8859-1":
                 out.append(("decl-contra/latin1-as-ascii", ('<?xml version="1.0" encoding="US-ASCII"?><r a="x">\xe9</r>').encode("latin-1"), ("fatal",)))
@@ -497,24 +510,27 @@ def run(ctx):
                 break
     # encoder side: every agreeing u8to/u4to case is classified by the Spec
     f7_seen = 0
+    f7_case = None
     enc_checked = 0
     for k in idx[:20000 if ctx.tier == "quick" else 200000] + [0, 1]:
         kind, req = cases[k]
         if req.split()[0] in ("u8to",) and impl[k] == model[k]:
             units = parse_units(req.split()[-1], 4)
             enc_checked += 1
-            if ill_formed16(units) and impl[k].startswith("ok") and impl[k].split()[2] != "-":
-                # consumed an unpaired surrogate without an error
+            if impl[k].startswith("ok") and impl[k].split()[2] != "-":
+                # consumed an unpaired surrogate without an error (statement of T05_utf8_enc_sound: the eaten
+                # prefix is well-formed UTF-16; a leading surrogate left for the next call is fine)
                 p = impl[k].split()
-                if int(p[1]) > 0:
+                if int(p[1]) > 0 and ill_formed16(units[:int(p[1])]):
                     f7_seen += 1
+                    f7_case = (req, impl[k])
     ctx.coverage["spec_oracle_checked"] = checked + enc_checked + len(divergences[:200])
     if f7_seen:
         if ctx.find_known("F7"):
             ctx.known_finding("F7", "UTF-8 encoder accepts ill-formed UTF-16 (unpaired surrogate) and emits bytes "
                               "(witness `u8to 8 1 DC00` -> ED B0 80); %d generated cases of this class" % f7_seen)
         else:
-            ctx.violation("F7", {"request": "u8to 8 1 DC00", "impl": impl[0], "what": "unpaired surrogate encoded"})
+            ctx.violation("F7", {"request": f7_case[0], "impl": f7_case[1], "what": "unpaired surrogate encoded"})
     # F24: IBM1047 byte 0x15
     k = 2
     if impl[k] == "ok 1 000A":
@@ -523,6 +539,44 @@ def run(ctx):
                               "(witness `tabfrom ibm1047 1 15`)")
         else:
             ctx.violation("F24", {"request": cases[k][1], "impl": impl[k], "what": "IBM1047 0x15 decodes to LF"})
+    # single-byte tables, Spec on the implementation's answers (statement of T05_tab_roundtrip read on the real
+    # library; this is also the refuter of the table obligations): a unit the table can encode decodes back to
+    # itself, and every byte decodes to a unit that encodes to a byte with the same decoding.
+    if not ctx.replay:
+        for t in TABS:
+            dec = {}
+            rep = {}
+            can = set()
+            for k, (kind, req) in enumerate(cases):
+                a = req.split()
+                if kind == "tabfrom" and a[1] == t and impl[k].startswith("ok"):
+                    us = parse_units(impl[k].split()[2], 4)
+                    dec = dict(enumerate(us))
+                elif kind == "tabto-rep" and a[1] == t and impl[k].startswith("ok"):
+                    us = parse_units(a[4], 4)
+                    bs = parse_units(impl[k].split()[2], 2) if len(impl[k].split()) > 2 else []
+                    if len(bs) == len(us):
+                        rep.update(zip(us, bs))
+                elif kind == "can-bmp" and a[1] == t and impl[k] == "ok 1":
+                    can.add(int(a[2]))
+            enc = {u: rep[u] for u in can if u in rep}
+            bad = None
+            for u, b in sorted(enc.items()):
+                if dec.get(b) != u and not (t == "ibm1047" and u == 0x85 and b == 0x15 and ctx.find_known("F24")):
+                    bad = {"request": "tabto %s 4 1 %04X" % (t, u), "impl": "ok 1 %02X" % b,
+                           "then": "tabfrom %s 1 %02X" % (t, b), "decodes_to": "%04X" % dec.get(b, 0xFFFFFFFF),
+                           "what": "a character the %s table encodes without error does not decode back to itself" % t}
+                    break
+            if not bad:
+                for b, u in sorted(dec.items()):
+                    if u in enc and dec.get(enc[u]) != u and not (t == "ibm1047" and ctx.find_known("F24") and u in (0x0A, 0x85)):
+                        bad = {"request": "tabfrom %s 1 %02X" % (t, b), "impl": "%04X" % u,
+                               "what": "byte decodes to a unit whose encoding decodes to a different unit"}
+                        break
+            checked += len(enc) + len(dec)
+            if bad:
+                ctx.violation("tab-roundtrip", bad)
+    ctx.coverage["spec_oracle_checked"] = checked + enc_checked + len(divergences[:200])
     # document level: same content in every encoding x BOM x declaration (oracle: XML 1.0 4.3.3 / App. F as
     # written in doc_cases; exploration that supports the tie of the recognizer + transcoders at the parser level)
     if not ctx.replay:
